@@ -7,6 +7,7 @@ Not part of any property's verdict.
 """
 import json
 import os
+import signal
 import subprocess
 import sys
 
@@ -40,7 +41,17 @@ def main():
                 print(f"{n}: PATCH DOES NOT APPLY ANY MORE {a.stderr.strip()[:160]}", flush=True)
                 continue
             env = dict(os.environ, VERIF_REPO=WT, VERIF_EVIDENCE_DIR=WT + "-evidence")
-            p = sh("/venv/bin/python", os.path.join(VERIF, "harness", "check.py"), prop, "--tier", "quick", env=env, timeout=3000)
+            pr = subprocess.Popen(["/venv/bin/python", os.path.join(VERIF, "harness", "check.py"), prop, "--tier", "quick"], env=env,
+                                  stdout=subprocess.PIPE, stderr=subprocess.PIPE, text=True, start_new_session=True)
+            try:
+                out, err = pr.communicate(timeout=3000)
+                p = subprocess.CompletedProcess(pr.args, pr.returncode, out, err)
+            except subprocess.TimeoutExpired:
+                os.killpg(pr.pid, signal.SIGKILL)       # the check and the workers / TLC processes it started
+                pr.communicate()
+                missed += 1
+                print(f"{n}: {prop} TIMEOUT after 3000 s: counted as MISSED", flush=True)
+                continue
             lines = [ln for ln in p.stdout.splitlines() if ln.startswith(("VIOLATION", "OK", "MACH", "  C", "  ["))][:2]
             ok = p.returncode == 1
             if meta.get("not_covered"):
